@@ -12,7 +12,7 @@ fn kv_compressor(mix: f32) -> Compressor {
 	c
 }
 
-// @h prop=C13,C14 tier=quick kind=main timeout=280
+// @h prop=C13,C14 tier=quick kind=main timeout=600
 // @bounds default compressor (threshold/ratio/attack/release defaults, makeup 0 dB), zero envelope; fully wet or fully dry (symbolic); one frame: silence, or any finite level whose log10-level is at or below the threshold
 // @funcs Compressor::process
 // @assume contract stubs: log10 (log10(0) = -inf, monotone), exp (in [0,1] for arguments <= 0), powf (pow(10,0) = 1)
